@@ -1,0 +1,16 @@
+//go:build verif
+
+package kubernetes
+
+import "time"
+
+// VerifAge lets the verification harness pretend that d has passed since every instant the
+// manager remembers (the first sight of a StatefulSet that is not ready).
+func (g *ReplicasManager) VerifAge(d time.Duration) {
+	for name, t := range g.stsUpdatedTime {
+		if t != nil {
+			nt := t.Add(-d)
+			g.stsUpdatedTime[name] = &nt
+		}
+	}
+}
